@@ -712,6 +712,116 @@ theorem c07_resync (h : List Pkt) (e : Enc) (f g : Bytes) (pf pg : List Pkt) (hc
     · simp only; split <;> rfl
   exact c03_roundtrip (encode e f).1 g _ pg (by rw [hcfg]; exact hc) hg hclean hpg
 
+/-! ## series of frames through one encoder / decoder pair -/
+
+/-- a series of `Encode` calls through the same encoder (`none` if a frame is refused) -/
+def encodeMany (e : Enc) : List Bytes → Option (Enc × List Pkt)
+  | [] => some (e, [])
+  | f :: fs =>
+    match encode e f with
+    | (e1, some ps) => (encodeMany e1 fs).map fun r => (r.1, ps ++ r.2)
+    | (_, none) => none
+
+/-- **C06 numbering, any series of calls, any initial value (incl. wrap inside the run)** -/
+theorem c06_seq_many (e e' : Enc) (fs : List Bytes) (ps : List Pkt) (h : encodeMany e fs = some (e', ps)) :
+    ps.map (·.seq) = seqFrom e.seq ps.length ∧ e'.seq = e.seq + UInt16.ofNat ps.length := by
+  induction fs generalizing e ps with
+  | nil => simp [encodeMany] at h; obtain ⟨rfl, rfl⟩ := h; simp [seqFrom]
+  | cons f fs ih =>
+    simp only [encodeMany] at h
+    cases he : encode e f with
+    | mk e1 r =>
+      cases r with
+      | none => simp [he] at h
+      | some qs =>
+        simp only [he] at h
+        cases hm : encodeMany e1 fs with
+        | none => simp [hm] at h
+        | some x =>
+          obtain ⟨e2, rs⟩ := x
+          simp only [hm, Option.map_some, Option.some.injEq, Prod.mk.injEq] at h
+          obtain ⟨rfl, rfl⟩ := h
+          have hq : (encode e f).2 = some qs := by rw [he]
+          obtain ⟨h1, h2⟩ := c06_seq_consecutive e f qs hq
+          rw [he] at h2
+          obtain ⟨h3, h4⟩ := ih e1 rs hm
+          simp only [List.map_append, List.length_append]
+          refine ⟨?_, ?_⟩
+          · rw [seqFrom_append, h1, h3, h2]
+          · rw [h4, h2]
+            apply UInt16.toNat_inj.mp
+            simp [UInt16.toNat_add, UInt16.toNat_ofNat']
+            omega
+
+/-- the frames a result list returns, in order -/
+def okFrames : List (DecRes Bytes) → List Bytes
+  | [] => []
+  | .ok f :: rs => f :: okFrames rs
+  | _ :: rs => okFrames rs
+
+/-- every answer is "more packets needed" or a frame (no error, no "non-starting packet") -/
+def NoErr (rs : List (DecRes Bytes)) : Prop := ∀ r ∈ rs, r = .more ∨ ∃ f, r = .ok f
+
+theorem okFrames_append (a b : List (DecRes Bytes)) : okFrames (a ++ b) = okFrames a ++ okFrames b := by
+  induction a with
+  | nil => rfl
+  | cons r a ih => cases r <;> simp [okFrames, ih]
+
+theorem okFrames_more (n : Nat) (f : Bytes) : okFrames (List.replicate n .more ++ [.ok f]) = [f] := by
+  induction n with
+  | zero => rfl
+  | succ n ih => simp [List.replicate_succ, okFrames, ih]
+
+theorem noErr_more (n : Nat) (f : Bytes) : NoErr (List.replicate n .more ++ [.ok f]) := by
+  intro r hr
+  simp only [List.mem_append, List.mem_replicate, List.mem_singleton] at hr
+  rcases hr with ⟨_, h⟩ | h
+  · exact Or.inl h
+  · exact Or.inr ⟨f, h⟩
+
+/-- **C03, consecutive frames**: any series of valid frames through one encoder / decoder pair comes
+back as exactly that series, frame by frame, with only "more packets needed" in between. -/
+theorem c03_roundtrip_many (e e' : Enc) (fs : List Bytes) (d : Dec) (ps : List Pkt)
+    (hc : ValidCfg e.cfg) (hf : ∀ f ∈ fs, ValidFrame f) (hd : Clean d)
+    (h : encodeMany e fs = some (e', ps)) :
+    okFrames (runDec d ps).2 = fs ∧ NoErr (runDec d ps).2 ∧ Clean (runDec d ps).1 := by
+  induction fs generalizing e d ps with
+  | nil =>
+    simp [encodeMany] at h; obtain ⟨rfl, rfl⟩ := h
+    exact ⟨rfl, by intro r hr; simp [runDec] at hr, hd⟩
+  | cons f fs ih =>
+    simp only [encodeMany] at h
+    cases he : encode e f with
+    | mk e1 r =>
+      cases r with
+      | none => simp [he] at h
+      | some qs =>
+        simp only [he] at h
+        cases hm : encodeMany e1 fs with
+        | none => simp [hm] at h
+        | some x =>
+          obtain ⟨e2, rs⟩ := x
+          simp only [hm, Option.map_some, Option.some.injEq, Prod.mk.injEq] at h
+          obtain ⟨rfl, rfl⟩ := h
+          have hq : (encode e f).2 = some qs := by rw [he]
+          obtain ⟨d1, hr1, hc1⟩ := c03_roundtrip e f d qs hc (hf f (by simp)) hd hq
+          have hcfg : e1.cfg = e.cfg := by
+            have : (encode e f).1.cfg = e.cfg := by
+              unfold encode
+              split
+              · rfl
+              · simp only; split <;> rfl
+            rw [he] at this; exact this
+          obtain ⟨i1, i2, i3⟩ := ih e1 d1 rs (by rw [hcfg]; exact hc) (fun x hx => hf x (by simp [hx])) hc1 hm
+          rw [runDec_append, hr1]
+          refine ⟨?_, ?_, i3⟩
+          · rw [okFrames_append, okFrames_more, i1]; rfl
+          · intro r hr
+            simp only [List.mem_append] at hr
+            rcases hr with hr | hr
+            · exact noErr_more _ f r (by simpa using hr)
+            · exact i2 r hr
+
 /-! ## non-vacuity (frame and encoder of `Props/Codec/Mpeg1Video.lean`) -/
 
 example : ∃ ps, (encode exEnc exFrame).2 = some ps ∧ ps.length = 4 := ⟨_, rfl, by decide⟩
